@@ -1,7 +1,5 @@
 import OnlVerif.Kernel.Step
-import OnlVerif.Generated.KernelRes
-import OnlVerif.Generated.KernelCond
-import OnlVerif.Generated.KernelSched
+import OnlVerif.Generated.KernelObj
 /-!
 # Reading the *generated* kernel definitions (`Generated/Kernel*.lean`) on the kernel model `K`
 
@@ -17,7 +15,12 @@ hand-written encoding between the two worlds:
   (`callbacks`, `_ok`, `_value`, `_defused`) and the `schedule` calls of a constructor / trigger method;
 * `toEntry`, `pushEntry` - a queue tuple as a model agenda entry.
 
-Only definitions here (core Lean); the lemmas are in `GenKernelRes.lean`, `GenKernelCond.lean`, `GenKernelSched.lean`.
+Only definitions here (core Lean), and only those that mention **no source-derived definition**: this file imports the object
+schemas (`Generated/KernelObj.lean`, independent of the library source) and no other generated file, so that every bridge
+module can share it without depending on a generated file of another property (`py2lean/SCOPE.md`).  How a translated method
+is *run* on a model state (`run…`, `keyOf`) is defined next to the lemmas about it, one file per generated file:
+`GenKernelRes6.lean`, `GenKernelRes7.lean`, `GenKernelCancel.lean`, `GenKernelCond.lean`, `GenKernelSched01.lean`,
+`GenKernelEvent02.lean`, `GenKernelRun03.lean`, `GenKernelProc04.lean`.
 -/
 
 namespace GenKernel
@@ -44,9 +47,6 @@ def evObj : Gen.EventObj τ := { raised := 0, raise_site := 0, eff := [] }
 
 /-- a `Condition` object before a `_check` call -/
 def condObj (s : KState τ σ) (c : EvId) : Gen.ConditionObj τ := { count := (s.ev c).count, eff := [] }
-
-/-- `request.key` -/
-def keyOf (rq : ReqData τ) : Int × τ × Bool := Gen.PriorityRequest.key rq.prio rq.time rq.preempt
 
 /-- `event._ok` of a triggered event -/
 def evOk (s : KState τ σ) (e : EvId) : Bool :=
@@ -109,88 +109,19 @@ def runEff (cx : Cx) : List (KEff τ) → KState τ σ → Option (KState τ σ)
   | [], s => some s
   | x :: xs, s => (applyEff cx s x).bind (runEff cx xs)
 
-/-! ## running a translated method on a model state
-
-Each `run…` evaluates the *generated* method on the object view of the state (external quantities such as
-`len(self._users)`, `event.amount`, `bool(self.items)` are read from the state), performs its effects and returns the new
-state with the bool the method returned. -/
+/-! ## the result of a translated `_do_put` / `_do_get` -/
 
 /-- pair the state after the effects with the returned bool -/
 def finish (cx : Cx) (s : KState τ σ) (eff : List (KEff τ)) (ret : Bool) : Option (KState τ σ × Bool) :=
   (runEff cx eff s).map fun s' => (s', ret)
-
-/-- `Resource._do_put(event)` -/
-def runResourcePut (cx : Cx) (s : KState τ σ) : Option (KState τ σ × Bool) :=
-  let g := Gen.Resource.do_put (resObj (s.res cx.r)) (s.res cx.r).users.length
-  finish cx s g.eff g.ret
-
-/-- `Resource._do_get(event)` -/
-def runResourceGet (cx : Cx) (s : KState τ σ) : Option (KState τ σ × Bool) :=
-  let g := Gen.Resource.do_get (resObj (s.res cx.r))
-  finish cx s g.eff g.ret
-
-/-- the statement of `PreemptiveResource._do_put` before `return super()._do_put(event)` -/
-def runPreemptStep (cx : Cx) (s : KState τ σ) : Option (KState τ σ) :=
-  runEff cx (Gen.PreemptiveResource.pre_put (resObj (s.res cx.r)) (s.res cx.r).users.length (reqOf s cx.e).preempt
-    (keyOf (reqOf s cx.e)) (keyOf (reqOf s cx.w))).eff s
-
-/-- `PreemptiveResource._do_put(event)`: the eviction step, then `Resource._do_put` -/
-def runPreemptivePut (cx : Cx) (s : KState τ σ) : Option (KState τ σ × Bool) :=
-  (runPreemptStep cx s).bind (runResourcePut cx)
-
-/-- `Container._do_put(event)` -/
-def runContainerPut (cx : Cx) (s : KState τ σ) : Option (KState τ σ × Bool) :=
-  let g := Gen.Container.do_put (contObj (s.res cx.r)) (reqOf s cx.e).amount
-  finish cx s g.eff g.ret
-
-/-- `Container._do_get(event)` -/
-def runContainerGet (cx : Cx) (s : KState τ σ) : Option (KState τ σ × Bool) :=
-  let g := Gen.Container.do_get (contObj (s.res cx.r)) (reqOf s cx.e).amount
-  finish cx s g.eff g.ret
-
-/-- `Store._do_put(event)` (also `FilterStore`, which inherits it) -/
-def runStorePut (cx : Cx) (s : KState τ σ) : Option (KState τ σ × Bool) :=
-  let g := Gen.Store.do_put (resObj (s.res cx.r)) (s.res cx.r).items.length
-  finish cx s g.eff g.ret
-
-/-- `Store._do_get(event)` -/
-def runStoreGet (cx : Cx) (s : KState τ σ) : Option (KState τ σ × Bool) :=
-  let g := Gen.Store.do_get (resObj (s.res cx.r)) (!(s.res cx.r).items.isEmpty)
-  finish cx s g.eff g.ret
-
-/-- `PriorityStore._do_put(event)` -/
-def runPStorePut (cx : Cx) (s : KState τ σ) : Option (KState τ σ × Bool) :=
-  let g := Gen.PriorityStore.do_put (resObj (s.res cx.r)) (s.res cx.r).items.length
-  finish cx s g.eff g.ret
-
-/-- `PriorityStore._do_get(event)` -/
-def runPStoreGet (cx : Cx) (s : KState τ σ) : Option (KState τ σ × Bool) :=
-  let g := Gen.PriorityStore.do_get (resObj (s.res cx.r)) (!(s.res cx.r).items.isEmpty)
-  finish cx s g.eff g.ret
-
-/-- `FilterStore._do_get(event)`; `cx.m` must be the first item that passes the filter -/
-def runFStoreGet (cx : Cx) (s : KState τ σ) : Option (KState τ σ × Bool) :=
-  let g := Gen.FilterStore.do_get (resObj (s.res cx.r)) cx.m.isSome
-  finish cx s g.eff g.ret
-
-/-- `Put.cancel()` -/
-def runPutCancel (cx : Cx) (s : KState τ σ) : Option (KState τ σ) :=
-  runEff cx (Gen.Put.cancel reqObj (s.triggered cx.e)).eff s
-
-/-- `Get.cancel()` -/
-def runGetCancel (cx : Cx) (s : KState τ σ) : Option (KState τ σ) :=
-  runEff cx (Gen.Get.cancel reqObj (s.triggered cx.e)).eff s
-
-/-- `Condition._check(event)` of condition `cx.c` for operand `cx.e` -/
-def runCondCheck (cx : Cx) (s : KState τ σ) : Option (KState τ σ) :=
-  runEff cx (Gen.Condition.check (condObj s cx.c) (s.triggered cx.c) (evOk s cx.e) (condOps s cx.c).1
-    ((condOps s cx.c).2.length : Int)).eff s
 
 /-- the effects of `ContainerPut.__init__` / `ContainerGet.__init__` when they do not raise: `self.amount = a`, then the
 base-class constructor -/
 def initAmount : List (KEff τ) → Option Int
   | [.setAmount a, .requestInit] => some a
   | _ => none
+
+
 
 /-! ## events under construction, trigger methods -/
 
